@@ -215,9 +215,53 @@ def overlapping(tmo, calls):
     return None
 
 
+def inside_scope():
+    """The same outcomes when the call is made inside an asynchronous scope that has other spawned tasks: a failing function
+    fails its caller with its own exception and nobody else."""
+    from haiway import ctx
+    out = {}
+
+    async def main(loop):
+        for kind in ("value", "exc", "base", "timeout"):
+            boom, base = Boom("x"), Base("y")
+
+            @timeout(1.0)
+            async def fn():
+                await asyncio.sleep(0.25 if kind != "timeout" else 5.0)
+                if kind == "exc":
+                    raise boom
+                if kind == "base":
+                    raise base
+                return "value"
+
+            async def bystander():
+                await asyncio.sleep(2.0)
+                return "bystander done"
+            try:
+                async with ctx.scope("around"):
+                    other = ctx.spawn(bystander)
+                    try:
+                        got = ("ret", await fn())
+                    except BaseException as e:  # noqa
+                        got = ("exc", e)
+                    by = await other
+            except BaseException as e:  # noqa
+                out[kind] = f"the scope around the call failed with {e!r} (function outcome {kind})"
+                continue
+            want_ok = {"value": got == ("ret", "value"), "exc": got[0] == "exc" and got[1] is boom,
+                       "base": got[0] == "exc" and got[1] is base, "timeout": got[0] == "exc" and isinstance(got[1], TimeoutError)}[kind]
+            if not want_ok or by != "bystander done":
+                out[kind] = f"inside a scope, function outcome {kind}: the caller got {got!r}, the bystander task {by!r}"
+    try:
+        run(main)
+    except Hang as h:
+        return f"calls inside a scope: {h}"
+    return "; ".join(out.values()) if out else None
+
+
 def search():
     n = 0
-    p = stacked()
+    p = stacked() or inside_scope()
     if p:
         return 1, dict(problem=p)
     for tmo in (1.0, 5.0):
